@@ -90,56 +90,73 @@ func utf16Length(s string) int {
 	return len(utf16.Encode([]rune(s)))
 }
 
+// utf16IndexOf returns the position, in UTF-16 code units, of the first
+// occurrence of target in value at or after from, or -1.
+func utf16IndexOf(value, target []uint16, from int) int {
+	for index := from; index+len(target) <= len(value); index++ {
+		if utf16HasPrefix(value[index:], target) {
+			return index
+		}
+	}
+	return -1
+}
+
+// utf16LastIndexOf returns the position, in UTF-16 code units, of the last
+// occurrence of target in value at or before from, or -1.
+func utf16LastIndexOf(value, target []uint16, from int) int {
+	if from > len(value)-len(target) {
+		from = len(value) - len(target)
+	}
+	for index := from; index >= 0; index-- {
+		if utf16HasPrefix(value[index:], target) {
+			return index
+		}
+	}
+	return -1
+}
+
+func utf16HasPrefix(value, prefix []uint16) bool {
+	if len(prefix) > len(value) {
+		return false
+	}
+	for index, unit := range prefix {
+		if value[index] != unit {
+			return false
+		}
+	}
+	return true
+}
+
 func builtinStringIndexOf(call FunctionCall) Value {
 	checkObjectCoercible(call.runtime, call.This)
-	value := call.This.string()
-	target := call.Argument(0).string()
-	if 2 > len(call.ArgumentList) {
-		return intValue(indexRune(value, target))
-	}
+	// Positions are in UTF-16 code units (ECMA 262 15.5.4.7), not bytes.
+	value := utf16.Encode([]rune(call.This.string()))
+	target := utf16.Encode([]rune(call.Argument(0).string()))
 	start := toIntegerFloat(call.Argument(1))
 	if 0 > start {
 		start = 0
-	} else if start >= float64(len(value)) {
-		if target == "" {
-			return intValue(len(value))
-		}
-		return intValue(-1)
+	} else if start > float64(len(value)) {
+		start = float64(len(value))
 	}
-	index := indexRune(value[int(start):], target)
-	if index >= 0 {
-		index += int(start)
-	}
-	return intValue(index)
+	return intValue(utf16IndexOf(value, target, int(start)))
 }
 
 func builtinStringLastIndexOf(call FunctionCall) Value {
 	checkObjectCoercible(call.runtime, call.This)
-	value := call.This.string()
-	target := call.Argument(0).string()
-	if 2 > len(call.ArgumentList) || call.ArgumentList[1].IsUndefined() {
-		return intValue(lastIndexRune(value, target))
+	// Positions are in UTF-16 code units (ECMA 262 15.5.4.8), not bytes.
+	value := utf16.Encode([]rune(call.This.string()))
+	target := utf16.Encode([]rune(call.Argument(0).string()))
+	start := len(value)
+	if position := call.Argument(1).number(); position.kind != numberNaN && !(position.kind == numberInfinity && position.float64 > 0) {
+		// NaN (which includes a missing position) and +Infinity mean the end of the string
+		if position.int64 < int64(start) {
+			start = int(position.int64)
+		}
+		if start < 0 {
+			start = 0
+		}
 	}
-	length := len(value)
-	if length == 0 {
-		return intValue(lastIndexRune(value, target))
-	}
-	start := call.ArgumentList[1].number()
-	if start.kind == numberNaN || (start.kind == numberInfinity && start.float64 > 0) {
-		// position is NaN or +Infinity, so start is the end of string (start = length)
-		return intValue(lastIndexRune(value, target))
-	}
-	if 0 > start.int64 {
-		start.int64 = 0
-	}
-	if start.int64 > int64(length) {
-		start.int64 = int64(length)
-	}
-	end := int(start.int64) + len(target)
-	if end > length {
-		end = length
-	}
-	return intValue(lastIndexRune(value[:end], target))
+	return intValue(utf16LastIndexOf(value, target, start))
 }
 
 func builtinStringMatch(call FunctionCall) Value {
